@@ -90,7 +90,10 @@ def check_export_forms(ctx, key, is_private, orig_numbers, jwk, rep, extra):
         if is_private:
             forms += [("pem-private", lambda: key.as_pem(private=True)), ("der-private", lambda: key.as_der(private=True)),
                       ("pem-password", lambda: key.as_pem(private=True, password=PW[0])),
-                      ("der-password", lambda: key.as_der(private=True, password=PW[0]))]
+                      ("der-password", lambda: key.as_der(private=True, password=PW[0])),
+                      # the same key object exported once more under ANOTHER password: the export is encrypted under the password of this call
+                      ("pem-password2", lambda: key.as_pem(private=True, password=PW2)),
+                      ("der-password2", lambda: key.as_der(private=True, password=PW2))]
             # a password is a string of octets: white space at its ends belongs to it
             PW[0] = ["s3cret", " s3cret", "s3cret\n", "\ts3 cret ", "s3cret\r\n", b"s3cret\x0c", b" \x00s3cret"][ctx.rng.randrange(7)]
     for fname, f in forms:
@@ -102,7 +105,7 @@ def check_export_forms(ctx, key, is_private, orig_numbers, jwk, rep, extra):
             ctx.violation(f"export-fails:{fname}:{e.key}", f"{fname} export of a {rep} key raised {e.exc!r}", case)
             continue
         out = e.value
-        exported_private = fname in ("jwk-private", "pem-private", "der-private", "pem-password", "der-password") or \
+        exported_private = fname in ("jwk-private", "pem-private", "der-private", "pem-password", "der-password", "pem-password2", "der-password2") or \
             (fname in ("jwk-default", "pem-default", "der-default") and is_private) or kty == "oct"
         ctx.nontrivial((K.numbers_of_jwk(jwk).get("x", K.numbers_of_jwk(jwk).get("n", K.numbers_of_jwk(jwk).get("k"))), rep, fname, extra))
         if isinstance(out, dict):
@@ -127,7 +130,7 @@ def check_export_forms(ctx, key, is_private, orig_numbers, jwk, rep, extra):
                         ctx.violation("extra-parameter-lost", f"extra parameter {k2}={v2!r} exported as {out.get(k2)!r} ({fname})", case)
             back = call(cls.import_key, copy.deepcopy(out))
         else:
-            pw = PW[0] if "password" in fname else None
+            pw = (PW2 if fname.endswith("password2") else PW[0]) if "password" in fname else None
             is_pem = out.lstrip().startswith(b"-----BEGIN ")
             if fname.startswith("der") and (is_pem or out[:1] != b"\x30"):
                 ctx.violation("der-export-not-der", f"{fname} export is not DER (starts with {out[:12]!r})", case)
@@ -142,6 +145,12 @@ def check_export_forms(ctx, key, is_private, orig_numbers, jwk, rep, extra):
                 if nopw.ok:
                     ctx.violation("password-ignored", f"{fname}: export with a password re-imports without one", case)
                 back = call(cls.import_key, out, None, pw)
+                if fname.endswith("password2"):
+                    ctx.count("exports_under_a_second_password")
+                    old = call(cls.import_key, out, None, PW[0])
+                    if old.ok:
+                        ctx.violation("export-encrypted-under-an-earlier-password", f"{fname}: the key was exported under one password and then under another; the second "
+                                      f"export opens with the first password", case)
             else:
                 back = call(cls.import_key, out)
             # PEM/DER read by pycryptodome as an independent parser
@@ -358,6 +367,7 @@ OPEN_CLASSES = ("retyped-key_ops-str",)
 
 
 PW = ["s3cret"]
+PW2 = "an0ther pass"
 MARKER_WORDS = [b"PUBLIC", b"PRIVATE", b"CERTIFICATE", b"OPENSSH PRIVATE", b"SSH2", b"BEGIN", b"ENCRYPTED", b"ssh-ed25519 ", b"ssh-rsa", b"-----",
                 # whole armor fragments: whatever words the DER octets of a key contain, they are the DER octets of that key
                 b"PUBLIC KEY-----", b"PRIVATE KEY-----", b"-----BEGIN OPENSSH PRIVATE", b"-----BEGIN CERTIFICATE", b"-----BEGIN PUBLIC KEY-----", b"-----END PRIVATE KEY-----"]
